@@ -1049,7 +1049,7 @@ impl Model {
                 }
                 let v0 = self.view(&p);
                 let v1 = Model::followed(&v0);
-                same(ok(Val::EntryF(v0, v1.clone(), v1)))
+                same(ok(Val::EntryF(v0, v1.clone(), v1.clone(), v1)))
             },
             Op::Readlink { p } | Op::ReadlinkAbs { p } => {
                 let p = abs_or!(p);
